@@ -62,7 +62,7 @@ type Row struct {
 
 // Kind is one operand-kind variant of a row.
 type Kind struct {
-	Name  string
+	Name string
 	// Class is the coarse operand kind used in violation signatures (several Kinds that differ only in
 	// the shape of op0 share a Class); empty: Name.
 	Class string
